@@ -3,6 +3,7 @@ import TTModel.C01_Patterns
 import TTProofs.Lemmas.C02_Names
 import TTProofs.Lemmas.C02_Swap
 import TTProofs.Lemmas.C02_Reroot
+import TTProofs.Lemmas.C02_Data
 import TTProofs.Lemmas.C01_Patterns
 import TTProofs.Lemmas.C01_Main
 import TTProofs.Lemmas.C01_Tables
@@ -103,6 +104,47 @@ theorem lik_double_columns {C : Type} [DecidableEq C] [LT C] [DecidableLT C] {M 
     ((compress (cols ++ cols)).map fun pw => pw.2 • f pw.1).sum
       = 2 • ((compress cols).map fun pw => pw.2 • f pw.1).sum := by
   rw [TT.C01.compress_sum, TT.C01.compress_sum, List.map_append, List.sum_append, two_nsmul]
+
+/-! ## end to end: taxa order and sequence order together -/
+
+/-- **The reported log-likelihood is a function of name-indexed data only.**  `reported` composes the model's
+    functions exactly as `TreeLikelihoodModel` does (alignment sorted into `Taxa` order, `compress`, tip `i` = vector
+    of the symbol `patterns[taxa[i]]`, indices from `Taxa` order, matrices by node index, the pruning loop,
+    `Σ_p w_p log L_p`).  It equals `Σ_{sites j} log likN(name ↦ vec(j-th symbol of the sequence named so))`,
+    an expression in which neither the order of `taxa` nor the order of `seqs` occurs. -/
+theorem reported_by_name {β : Type} {K S : Nat} (π : Fin S → ℝ) (props : Fin K → ℝ)
+    (P : β → Fin K → Fin S → Fin S → ℝ) (d : β) (vec : Sym → Fin S → ℝ) (size : Nat) (taxa : List String)
+    (seqs : List (String × List Char)) (l r : LTree β) (b : β) (m : Nat)
+    (hseq_nd : (seqs.map (·.1)).Nodup) (hseq_ne : seqs ≠ [])
+    (hlen : ∀ s ∈ seqs, (splitSyms size s.2).length = m)
+    (hsub : ∀ nm ∈ (LTree.node l r b).names, nm ∈ taxa) (hnd : (LTree.node l r b).names.Nodup)
+    (hhas : ∀ nm ∈ (LTree.node l r b).names, nm ∈ seqs.map (·.1)) :
+    reported π props P d vec size taxa seqs (.node l r b)
+      = ((List.range m).map fun j => Real.log (likN π props P
+          (fun nm => vec ((splitSyms size (seqOf seqs nm)).getD j [])) (.node l r b))).sum :=
+  TT.C02.reported_by_name π props P d vec size taxa seqs l r b m hseq_nd hseq_ne hlen hsub hnd hhas
+
+/-- reordering the `Taxa` list AND the sequence list leaves the reported log-likelihood unchanged -/
+theorem reported_perm {β : Type} {K S : Nat} (π : Fin S → ℝ) (props : Fin K → ℝ)
+    (P : β → Fin K → Fin S → Fin S → ℝ) (d : β) (vec : Sym → Fin S → ℝ) (size : Nat)
+    (taxa taxa' : List String) (seqs seqs' : List (String × List Char)) (l r : LTree β) (b : β) (m : Nat)
+    (htaxa : taxa.Perm taxa') (hseqs : seqs.Perm seqs')
+    (hseq_nd : (seqs.map (·.1)).Nodup) (hseq_ne : seqs ≠ [])
+    (hlen : ∀ s ∈ seqs, (splitSyms size s.2).length = m)
+    (hsub : ∀ nm ∈ (LTree.node l r b).names, nm ∈ taxa) (hnd : (LTree.node l r b).names.Nodup)
+    (hhas : ∀ nm ∈ (LTree.node l r b).names, nm ∈ seqs.map (·.1)) :
+    reported π props P d vec size taxa seqs (.node l r b)
+      = reported π props P d vec size taxa' seqs' (.node l r b) := by
+  rw [reported_by_name π props P d vec size taxa seqs l r b m hseq_nd hseq_ne hlen hsub hnd hhas,
+    reported_by_name π props P d vec size taxa' seqs' l r b m
+      ((hseqs.map _).nodup_iff.mp hseq_nd)
+      (fun e => hseq_ne (by rw [e] at hseqs; exact hseqs.eq_nil))
+      (fun s hs => hlen s (hseqs.symm.subset hs))
+      (fun nm h => htaxa.subset (hsub nm h)) hnd
+      (fun nm h => (hseqs.map _).subset (hhas nm h))]
+  congr 1
+  refine List.map_congr_left fun j _ => ?_
+  simp only [seqOf_perm seqs seqs' hseqs hseq_nd]
 
 /-! ## tip states vs tip partials -/
 
